@@ -20,7 +20,7 @@ RULE = ('Generated transaction descriptions (1-6 tokens from a merchant-like voc
         'Non-trivial = description with >=2 words or >=1 regex metacharacter; distinct by the description.')
 ASSUMPTIONS = ['descriptions are as the parser delivers them: stripped, non-empty, single-line',
                'letters are ASCII; non-ASCII characters are uncased (the suggestion upper-cases the description)']
-REQUIRED_CLASSES = ['metachar', 'multiword', 'store_number_mid', 'store_number_glued', 'prefix', 'quote_or_backslash', 'budget_end_to_end']
+REQUIRED_CLASSES = ['metachar', 'multiword', 'store_number_mid', 'store_number_glued', 'prefix', 'quote_or_backslash', 'budget_end_to_end', 'budget_refund']
 
 WORDS = ['STARBUCKS', 'Netflix.com', 'UBER', 'EATS', 'AMZN', 'Mktp', 'US*1A2B3', 'WHOLEFDS', 'TRADER', "JOE'S", 'SHELL', 'OIL', 'COSTCO', 'WHSE', 'THE', 'HOME', 'DEPOT',
          'McDonald\'s', 'F12345', 'C++', 'A.B.', '(PARKING)', '[GARAGE]', 'R&D', '50%', 'PAY$', '^TOP', 'a|b', 'q?', '{x}', 'ab{2}', 'back\\slash', 'say"hi"', "it's", '日本', '☕',
@@ -122,7 +122,8 @@ def _budget(draw):
         if d not in seen:
             seen.add(d)
             uniq.append(d)
-    amounts = [draw(st.integers(100, 99999)) for _ in uniq]
+    # refunds too: discover then suggests `tags: refund` with the rule
+    amounts = [draw(st.integers(100, 99999)) * draw(st.sampled_from([1, 1, 1, -1])) for _ in uniq]
     return {'descs': uniq, 'cents': amounts}
 
 
@@ -186,7 +187,7 @@ def check_budget(bcase, stats: Stats):
         if remaining:
             raise Violation(f'after appending every suggestion {len(remaining)} descriptions are still Unknown: {[x["raw_description"] for x in remaining]}\n--- rules\n{appended}',
                             case, 'loop-incomplete')
-    stats.case(jhash(case), True, {'budget_end_to_end'}, sample={'descriptions': descs[:3]} if len(stats.samples) < 5 else None)
+    stats.case(jhash(case), True, {'budget_end_to_end'} | ({'budget_refund'} if any(c < 0 for c in bcase['cents']) else set()), sample={'descriptions': descs[:3]} if len(stats.samples) < 5 else None)
 
 
 def replay(case):
